@@ -180,6 +180,36 @@ def interrupted_history(pairs, res, prog, optimize):
     return
 
 
+def unsupported_feature_probe(idx, c, res, prog, optimize):
+    """A feature the data model covers but this HOST may not: positional-only parameters.  The data of a function
+    with at least one positional parameter is edited (dataclasses.replace, as docs/example_modify.md does) to make
+    the first one positional-only; on 3.7 to_code() must raise, on 3.8+ the count must appear in the header."""
+    import dataclasses
+
+    import code_data
+
+    out = sched._outcome(lambda: code_data.CodeData.from_code(c))
+    if out[0] != "ok" or out[1].type is None or not out[1].type.args.positional_or_keyword:
+        return
+    data = out[1]
+    a = data.type.args
+    a2 = dataclasses.replace(a, positional_only=a.positional_only + a.positional_or_keyword[:1], positional_or_keyword=a.positional_or_keyword[1:])
+    d2 = dataclasses.replace(data, type=dataclasses.replace(data.type, args=a2))
+    enc = sched._outcome(lambda: d2.to_code())
+    res["unsupported_feature_probes"] = res.get("unsupported_feature_probes", 0) + 1
+    bad = None
+    if sys.version_info < (3, 8):
+        if enc[0] == "ok":
+            bad = "positional-only-on-3.7/returned-code"
+    elif enc[0] != "ok":
+        bad = "positional-only/to_code-raises:" + enc[1]
+    elif enc[1].co_posonlyargcount != len(a2.positional_only) or enc[1].co_argcount != c.co_argcount:
+        bad = "positional-only/counts"
+    if bad:
+        res["violations"].append({"property": "C11", "fingerprint": "C11/H3-unrepresentable-feature-silently-dropped/" + bad, "invariant": "H3-unrepresentable-feature-silently-dropped",
+                                  "object_index": idx, "object_name": c.co_name, "prog": prog, "optimize": optimize, "history": True})
+
+
 def run_store(seed, tree, tier, known, keep_sample=False):
     """One run: one seeded program; every code object in it is a base object."""
     rng = prng.PRNG(seed)
@@ -235,6 +265,8 @@ def run_store(seed, tree, tier, known, keep_sample=False):
                 sample = {"program": prog.get("name"), "object": c.co_name, "base_header": [list(x) for x in header(c) if x[0] in ("co_flags", "co_argcount", "co_kwonlyargcount", "co_posonlyargcount")],
                           "alteration": list(alt), "class": cls, "verdict": verdict}
         res["distinct_keys"].append([base_digest, n_ok])
+        if c.co_argcount > getattr(c, "co_posonlyargcount", 0) and (c.co_flags & 3) == 3 and res.get("unsupported_feature_probes", 0) < 3:
+            unsupported_feature_probe(idx, c, res, prog if "src" in prog else dict(prog), optimize)
     # interrupted-history pass on consecutive base objects (module/function pairs differ in flags)
     small = [i for i in idxs if len(cos[i].co_code) <= 400 and sum(1 for k in cos[i].co_consts if hasattr(k, "co_code")) <= 2]
     pairs = []
